@@ -248,6 +248,12 @@ func (e *Exec) performSelect(t transition) {
 			s.vc.tick(s.idx)
 		}
 		s.op = &op{kind: opResume, site: so.site, name: "resume"}
+		if e.cfg.SymmetricRendezvous {
+			// neither party continues as part of the hand-over itself: the code after the
+			// receive and the code after the send run as separate transitions, in either order
+			e.rendezvousOnly = true
+			g.op = &op{kind: opResume, site: o.site, name: "resume-recv"}
+		}
 		e.record(g, "recv<-"+s.String(), o.site)
 		return
 	}
